@@ -79,7 +79,7 @@ var (
 	zones     sync.Map // "n12" -> *zone ; literal host -> *zone
 	strayMu   sync.Mutex
 	stray     []string
-	zoneRe    = regexp.MustCompile(`(?:^|\.)(n\d+)\.c16\.test\.?$`)
+	zoneRe    = regexp.MustCompile(`(?:^|[^a-z0-9])(n\d+)\.c16\.test`) // anywhere: mis-split names still find their scenario
 	stubOnce  sync.Once
 	stubAddr  string
 	certOnce  sync.Once
